@@ -375,3 +375,268 @@ pub fn err_family(level: u32) -> Vec<Script> {
     }
     out
 }
+
+// ---------------------------------------------------------------------------------------------
+// SEQ_k: the fragment of C16
+
+#[derive(Clone, Debug)]
+pub enum Shape {
+    Leaf,
+    Node(char, Box<Shape>, Box<Shape>),
+}
+
+pub fn shapes(k: usize) -> Vec<Shape> {
+    if k == 1 {
+        return vec![Shape::Leaf];
+    }
+    let mut out = vec![];
+    for l in 1..k {
+        for a in shapes(l) {
+            for b in shapes(k - l) {
+                for op in ['s', 'p', 'x'] {
+                    out.push(Shape::Node(op, Box::new(a.clone()), Box::new(b.clone())));
+                }
+            }
+        }
+    }
+    out
+}
+
+fn shape_name(s: &Shape) -> String {
+    match s {
+        Shape::Leaf => "c".into(),
+        Shape::Node(op, a, b) => format!("{op}({}{})", shape_name(a), shape_name(b)),
+    }
+}
+
+/// Argument wiring of a call leaf: n = none, r = most recent variable, l = most recent under a lens,
+/// a = most recent re-bound through `ap` with a lens and then used under another lens, t = literal + init peer
+#[derive(Clone, Copy, PartialEq, Eq, Debug)]
+pub enum Wire {
+    None,
+    Recent,
+    Lens,
+    ApLens,
+    Lit,
+}
+
+#[derive(Clone, Debug)]
+pub struct LeafSpec {
+    pub peer: PeerRef,
+    pub func: String,
+    pub wire: Wire,
+    pub extra_args: Vec<Arg>,
+    /// replace the leaf by (null) / (never)
+    pub replace: Option<I>,
+    /// wrap the leaf: 'm' match-true, 'x' xor(match-false, null)
+    pub guard: Option<char>,
+}
+
+fn build(shape: &Shape, leaves: &[LeafSpec], idx: &mut usize) -> I {
+    match shape {
+        Shape::Leaf => {
+            let i = *idx;
+            *idx += 1;
+            let l = &leaves[i];
+            if let Some(r) = &l.replace {
+                return r.clone();
+            }
+            let n = i + 1;
+            let prev = format!("v{i}");
+            let mut pre: Option<I> = None;
+            let mut args: Vec<Arg> = match (l.wire, i) {
+                (Wire::None, _) | (_, 0) => vec![],
+                (Wire::Recent, _) => vec![Arg::Var(prev.clone())],
+                (Wire::Lens, _) => vec![Arg::Lens(prev.clone(), ".f".into())],
+                (Wire::ApLens, _) => {
+                    pre = Some(I::Ap { src: Arg::Lens(prev.clone(), ".a".into()), dst: format!("w{n}") });
+                    vec![Arg::Var(format!("w{n}")), Arg::Lens(prev.clone(), ".p".into())]
+                }
+                (Wire::Lit, _) => vec![Arg::Str(format!("lit{n}")), Arg::InitPeer, Arg::Var(prev.clone())],
+            };
+            args.extend(l.extra_args.iter().cloned());
+            let c = I::Call { peer: l.peer.clone(), svc: "s".into(), func: l.func.clone(), args, out: sc(&format!("v{n}")) };
+            let c = match pre {
+                Some(p) => seq(p, c),
+                None => c,
+            };
+            match (l.guard, i) {
+                (Some('m'), i) if i > 0 => I::Match(Arg::Lens(prev.clone(), ".p".into()), Arg::Lens(prev, ".p".into()), Box::new(c)),
+                (Some('x'), i) if i > 0 => xor(I::Match(Arg::Lens(prev, ".f".into()), Arg::Str("nope".into()), Box::new(c)), I::Null),
+                (Some('n'), i) if i > 0 => xor(I::Mismatch(Arg::Lens(prev, ".f".into()), Arg::Str("nope".into()), Box::new(c)), I::Null),
+                _ => c,
+            }
+        }
+        Shape::Node(op, a, b) => {
+            let l = build(a, leaves, idx);
+            let r = build(b, leaves, idx);
+            match op {
+                's' => seq(l, r),
+                'p' => par(l, r),
+                _ => xor(l, r),
+            }
+        }
+    }
+}
+
+/// For each xor node: index of the last leaf of its left subtree that is reachable from the xor without
+/// crossing a par (the C16 side condition), if any.
+fn fail_sites(shape: &Shape) -> Vec<usize> {
+    fn leaves(s: &Shape) -> usize {
+        match s {
+            Shape::Leaf => 1,
+            Shape::Node(_, a, b) => leaves(a) + leaves(b),
+        }
+    }
+    // last leaf (in execution order) of `s` not under a par, relative to `s`
+    fn last_seq_leaf(s: &Shape, base: usize) -> Option<usize> {
+        match s {
+            Shape::Leaf => Some(base),
+            Shape::Node('p', _, _) => None,
+            Shape::Node('s', a, b) => last_seq_leaf(b, base + leaves(a)).or_else(|| last_seq_leaf(a, base)),
+            // nested xor: a failure in its left branch is caught by the inner xor; its right branch bubbles
+            Shape::Node(_, a, b) => last_seq_leaf(b, base + leaves(a)),
+        }
+    }
+    fn go(s: &Shape, base: usize, out: &mut Vec<usize>) {
+        if let Shape::Node(op, a, b) = s {
+            if *op == 'x' {
+                if let Some(i) = last_seq_leaf(a, base) {
+                    out.push(i);
+                }
+            }
+            go(a, base, out);
+            go(b, base + leaves(a), out);
+        }
+    }
+    let mut out = vec![];
+    go(shape, 0, &mut out);
+    out.sort();
+    out.dedup();
+    out
+}
+
+fn leafspecs(k: usize, pa: &[&str], wires: &[Wire]) -> Vec<LeafSpec> {
+    (0..k)
+        .map(|i| LeafSpec { peer: PeerRef::Name(pa[i].into()), func: format!("f{}", i + 1), wire: wires[i], extra_args: vec![], replace: None, guard: None })
+        .collect()
+}
+
+fn wire_menus(k: usize, menu: &[Wire]) -> Vec<Vec<Wire>> {
+    // first leaf has no variable to use
+    let mut out: Vec<Vec<Wire>> = vec![vec![Wire::None]];
+    for _ in 1..k {
+        let mut next = vec![];
+        for v in &out {
+            for w in menu {
+                let mut x = v.clone();
+                x.push(*w);
+                next.push(x);
+            }
+        }
+        out = next;
+    }
+    out
+}
+
+pub fn seq_family(kmax: usize, level: u32) -> Vec<Script> {
+    let mut out = vec![];
+    let peers = peers3();
+    let mut push = |name: String, ast: I| out.push(Script { family: "SEQ".into(), name, ast, peers: peers.clone() });
+    for k in 1..=kmax {
+        let menu: Vec<Wire> = if level == 0 || k >= 4 { vec![Wire::None, Wire::Recent] } else { vec![Wire::None, Wire::Recent, Wire::Lens] };
+        for shape in shapes(k) {
+            let sn = shape_name(&shape);
+            let fsites = fail_sites(&shape);
+            for pa in peer_assignments(k) {
+                if k >= 4 && level == 0 {
+                    continue;
+                }
+                for wires in wire_menus(k, &menu) {
+                    let wn: String = wires.iter().map(|w| format!("{w:?}").chars().next().unwrap()).collect();
+                    let base = leafspecs(k, &pa, &wires);
+                    push(sname(&["SEQ", &format!("k{k}"), &sn, &pa.join(""), &wn, "base"]), build(&shape, &base, &mut 0));
+                    // one failing call per xor (service error caught with no par in between)
+                    for fs in &fsites {
+                        let mut l = base.clone();
+                        l[*fs].func = format!("fail{}", fs + 1);
+                        push(sname(&["SEQ", &format!("k{k}"), &sn, &pa.join(""), &wn, &format!("fail{}", fs + 1)]), build(&shape, &l, &mut 0));
+                    }
+                }
+                // variants on the all-recent wiring only
+                let wires: Vec<Wire> = (0..k).map(|i| if i == 0 { Wire::None } else { Wire::Recent }).collect();
+                let base = leafspecs(k, &pa, &wires);
+                if k >= 2 {
+                    for i in 0..k {
+                        // richer argument forms
+                        for w in [Wire::ApLens, Wire::Lit] {
+                            if i == 0 {
+                                continue;
+                            }
+                            let mut l = base.clone();
+                            l[i].wire = w;
+                            push(sname(&["SEQ", &format!("k{k}"), &sn, &pa.join(""), &format!("{w:?}{i}")]), build(&shape, &l, &mut 0));
+                        }
+                        // guards
+                        for g in ['m', 'x', 'n'] {
+                            if i == 0 {
+                                continue;
+                            }
+                            let mut l = base.clone();
+                            l[i].guard = Some(g);
+                            push(sname(&["SEQ", &format!("k{k}"), &sn, &pa.join(""), &format!("guard-{g}{i}")]), build(&shape, &l, &mut 0));
+                        }
+                        // null / never leaves
+                        for (rn, r) in [("null", I::Null), ("never", I::Never)] {
+                            let mut l = base.clone();
+                            l[i].replace = Some(r);
+                            push(sname(&["SEQ", &format!("k{k}"), &sn, &pa.join(""), &format!("{rn}{i}")]), build(&shape, &l, &mut 0));
+                        }
+                        // call targets: variable, lens, init peer
+                        let target_peer = pa[i];
+                        let mut l = base.clone();
+                        l[i].peer = PeerRef::Var("tgt".into());
+                        let ast = seq(call("A", &format!("peer{target_peer}_t"), vec![], sc("tgt")), build(&shape, &l, &mut 0));
+                        push(sname(&["SEQ", &format!("k{k}"), &sn, &pa.join(""), &format!("target-var{i}")]), ast);
+                        let mut l = base.clone();
+                        l[i].peer = PeerRef::Lens("pt".into(), format!(".{target_peer}"));
+                        let ast = seq(call("A", "ptab", vec![], sc("pt")), build(&shape, &l, &mut 0));
+                        push(sname(&["SEQ", &format!("k{k}"), &sn, &pa.join(""), &format!("target-lens{i}")]), ast);
+                        if target_peer == "A" {
+                            let mut l = base.clone();
+                            l[i].peer = PeerRef::InitPeer;
+                            push(sname(&["SEQ", &format!("k{k}"), &sn, &pa.join(""), &format!("target-init{i}")]), build(&shape, &l, &mut 0));
+                        }
+                    }
+                }
+                // wrappers: new, scalar fold with next in seq-last / seq-first / par position
+                if k <= 3 {
+                    // a new-scoped scalar that is set first inside its scope and used by every call
+                    let mut l = base.clone();
+                    for x in l.iter_mut() {
+                        x.extra_args = vec![var("nz")];
+                    }
+                    let ast = new("nz", seq(I::Ap { src: Arg::Str("z".into()), dst: "nz".into() }, build(&shape, &l, &mut 0)));
+                    push(sname(&["SEQ", &format!("k{k}"), &sn, &pa.join(""), "new-nz"]), ast);
+                    for (fname, pos) in [("fold-seq-last", 0), ("fold-seq-first", 1), ("fold-par", 2), ("fold-par-first", 3)] {
+                        let mut l = base.clone();
+                        for x in l.iter_mut() {
+                            x.extra_args = vec![var("it")];
+                        }
+                        let body = build(&shape, &l, &mut 0);
+                        let nx = I::Next("it".into());
+                        let body = match pos {
+                            0 => seq(body, nx),
+                            1 => seq(nx, body),
+                            2 => par(body, nx),
+                            _ => par(nx, body),
+                        };
+                        let ast = seq(call("A", "arr0", vec![], sc("xs")), fold(var("xs"), "it", body));
+                        push(sname(&["SEQ", &format!("k{k}"), &sn, &pa.join(""), fname]), ast);
+                    }
+                }
+            }
+        }
+    }
+    out
+}
